@@ -203,6 +203,11 @@ func (lip4) Run(c Case) (res Result) {
 			ip2 := &layers.IPv4{}
 			cls2, tr2 := ip4Decode(ip2, out)
 			res.Obs = append(res.Obs, ip4Obs(cls2, tr2, ip2))
+			if len(out) > 65535 {
+				// outside the range of C06_ip4_roundtrip: the datagram does not fit the 16 bit total length
+				res.Tags = append(res.Tags, "length-overflow")
+				break
+			}
 			switch {
 			case cls2 != "ok":
 				res.Oracle = append(res.Oracle, "C06:roundtrip\tsecond decode: "+cls2)
